@@ -100,6 +100,8 @@ type ipamMon struct {
 	delFailed map[string]bool // ... whose delete call failed
 	writeLost map[string]bool // ... that no stored record named when a write of the Node record failed by injection
 	everBound map[string]bool // "ip|ns/name": the record has bound the address to a pod of that name at some point
+	owedKnow  map[string]bool // interfaces the controller created whose record write was refused: until its next successful
+	// listing of the node's interfaces it owes itself a full sync and may not plan on the stored record alone
 	cl        client.Client
 }
 
@@ -450,9 +452,13 @@ func (m *ipamMon) markWriteLost() {
 	if m.writeLost == nil {
 		m.writeLost = map[string]bool{}
 	}
+	if m.owedKnow == nil {
+		m.owedKnow = map[string]bool{}
+	}
 	for id := range m.createdOK {
 		if m.lastCR == nil || m.lastCR.Status.NetworkInterfaces[id] == nil {
 			m.writeLost[id] = true
+			m.owedKnow[id] = true
 		}
 	}
 }
@@ -486,7 +492,14 @@ func (m *ipamMon) OnInvoke(c *cloudsim.CtrlCloud, call *cloudsim.CCall) {
 			recorded = len(m.lastCR.Status.NetworkInterfaces)
 		}
 		pending := len(m.creating) + m.createInf
-		// the controller is judged on what it can know: the smaller of cloud truth and its stored record
+		// the controller is judged on what it can know: the smaller of cloud truth and its stored record, plus the
+		// attached interfaces it created itself and whose record write it saw refused (it owes itself a full sync
+		// before it plans again)
+		for id, e := range snap.ENIs {
+			if m.owedKnow[id] && !e.Deleted && e.InstanceID == "i-1" && e.Status != "Available" && (m.lastCR == nil || m.lastCR.Status.NetworkInterfaces[id] == nil) {
+				recorded++
+			}
+		}
 		if min(attached, recorded)+pending >= slots {
 			m.violate("C08", "C08.create-over-quota", "interfaces", fmt.Sprintf("CreateNetworkInterface while %d interfaces are attached (%d recorded) and %d created-not-yet-attached, the instance allows %d", attached, recorded, pending, slots))
 		}
@@ -539,6 +552,11 @@ func (m *ipamMon) OnInvoke(c *cloudsim.CtrlCloud, call *cloudsim.CCall) {
 
 func (m *ipamMon) OnReturn(c *cloudsim.CtrlCloud, call *cloudsim.CCall) {
 	if !call.Mutating {
+		if call.API == "DescribeNetworkInterface" && call.Err == "" && call.Instance != "" {
+			m.mu.Lock()
+			m.owedKnow = nil // the controller has seen what is attached
+			m.mu.Unlock()
+		}
 		return
 	}
 	m.mu.Lock()
@@ -715,7 +733,16 @@ func newIpamHist(c *ctxT, prop string, hid int, cfg ipamCfg, seed int64) *ipamHi
 						h.mon.markWriteLost()
 					}
 					h.mon.mu.Unlock()
-					if h.apiAtKind == "conflict" {
+					if h.apiAtKind == "conflict+describe" {
+						// ... and the listing of the node's interfaces that the owed full sync starts with is throttled once
+						h.cloud.Mutate(func(c *cloudsim.CtrlCloud) {
+							if c.FailAPI == nil {
+								c.FailAPI = map[string]int{}
+							}
+							c.FailAPI["DescribeNetworkInterface"] = 1
+						})
+					}
+					if strings.HasPrefix(h.apiAtKind, "conflict") {
 						return apierrors.NewConflict(schema.GroupResource{Group: "network.alibabacloud.com", Resource: kind}, "node-1", fmt.Errorf("injected conflict"))
 					}
 					return apierrors.NewServiceUnavailable("injected: write lost")
@@ -1241,6 +1268,9 @@ func (h *ipamHist) agentGC(podGetFaults int) {
 func (h *ipamHist) restartController() {
 	h.ctl = mnode.NewVerifReconcileNode(h.cl, apisim.Scheme(), h.cloud, h.vsw, &record.FakeRecorder{}, time.Hour, 0)
 	h.mon.note("controller restarted")
+	h.mon.mu.Lock()
+	h.mon.owedKnow = nil // what the old process owed itself died with it; the new one has the stored record only
+	h.mon.mu.Unlock()
 }
 
 // drift: the cloud changes behind terway's back.
